@@ -45,16 +45,7 @@ def run(tier, seed, only=None):
     t0 = time.time()
     d = C.scratch("c08")
     verdicts = C.Verdicts(PROP)
-    mc = []
-    states = transitions = 0
-    for cfg, must_hold in (("MC_Pipeline_intended", True), ("MC_Pipeline_asbuilt", False)):
-        r = C.run_tlc("MC_Pipeline", cfg, workers=8, timeout=3000, heap="16g", coverage=must_hold)
-        states += r.distinct
-        transitions += r.generated
-        if must_hold and not r.ok:
-            raise C.ToolError("the intended design violates the contract (the contract would be unsatisfiable): %s\n%s" % (r.error, r.out[-2000:]))
-        mc.append({"config": cfg, "holds": r.ok, "violated": r.error, "distinct_states": r.distinct,
-                   "states_generated": r.generated, "actions_never_taken": r.coverage_zero() if must_hold else []})
+    mc, states, transitions = P.model_check()
     cases = []
     ngen = {}
     if only is not None:
